@@ -11,6 +11,13 @@
 #include <unordered_map>
 #include <vector>
 
+#ifdef CAPPUCCINO_VERIF_HOOKS
+namespace cappuccino_verif
+{
+struct access;
+} // namespace cappuccino_verif
+#endif
+
 namespace cappuccino
 {
 /**
@@ -485,6 +492,11 @@ private:
             }
         }
     }
+
+#ifdef CAPPUCCINO_VERIF_HOOKS
+    /// Verification harness access to the private structure (structural correspondence tier).
+    friend struct ::cappuccino_verif::access;
+#endif
 
     /// Cache lock for all mutations.
     mutable mutex<thread_safe_type> m_lock;
